@@ -35,6 +35,12 @@ PATTERNS = {'date': ['%d/%m/%Y', '%Y.%m.%d'], 'datetime': ['%d/%m/%Y %H:%M', '%Y
 SAMPLE = {'date': dt.date(2021, 12, 24), 'datetime': dt.datetime(2022, 1, 3, 10, 30, 0), 'time': dt.time(10, 30)}
 PAT_CLS = {'date': 'DatePattern', 'datetime': 'DateTimePattern', 'time': 'TimePattern'}
 
+# user-defined types whose instances are written as the OPERAND of a skip condition: subclasses of int / str (the values a
+# condition is usually written with), with the repr() of the base, of enum, or one of their own
+OP_KINDS = {'intenum': ('int', '_en.IntEnum'), 'strenum': ('str', '_en.StrEnum'), 'intflag': ('int', '_en.IntFlag'),
+            'intsub': ('int', '_b.int'), 'strsub': ('str', '_b.str'), 'intrepr': ('int', '_b.int'), 'strrepr': ('str', '_b.str')}
+OP_VALS = {'int': [1, 2], 'str': ['a', 'b']}          # [the operand / member A, another value / member B]
+
 PRELUDE = model.PRELUDE + '\nimport dataclass_wizard.v1 as _v1\n'
 
 
@@ -56,7 +62,7 @@ def gen_spec(rng, engine):
         return texts[0] - 1
 
     spec = {'engine': engine, 'types': types_, 'fields': fields, 'members': []}
-    feats = rng.sample(['union_user', 'pattern', 'multi_alias', 'td', 'tagged', 'skip_str', 'bare_user', 'plain'], rng.randint(2, 4))
+    feats = rng.sample(['union_user', 'pattern', 'multi_alias', 'td', 'tagged', 'skip_str', 'bare_user', 'plain', 'skip_user'], rng.randint(2, 4))
     if rng.random() < 0.35:
         spec['root_tag'] = {'tag': new_text(), 'tag_key': new_text() if rng.random() < 0.8 else None}
         if 'tagged' in feats:
@@ -90,8 +96,12 @@ def gen_spec(rng, engine):
                 fields.append({'feat': 'pattern', 't': t, 'base': base, 'pat': pat if rng.random() < 0.8 else rng.choice(PATTERNS[base]),
                                'wrap': rng.choice([None, None, 'list', 'optional'])})
         elif ft == 'multi_alias':
-            fields.append({'feat': 'multi_alias', 'keys': [new_text() for _ in range(rng.choice([1, 2, 2, 3]))], 'use': rng.randrange(3),
-                           'dflt': rng.random() < 0.5})
+            # one to three aliased fields of different types and values, declared through json_field / Annotated[.., json_key] /
+            # the Meta table (default engine), Alias (v1)
+            for _ in range(rng.choice([1, 2, 2, 3])):
+                fields.append({'feat': 'multi_alias', 'keys': [new_text() for _ in range(rng.choice([1, 1, 2, 2, 3]))], 'use': rng.randrange(3),
+                               'dflt': rng.random() < 0.4, 'ty': rng.choice(['int', 'int', 'str']),
+                               'style': rng.choice(['field', 'field', 'annotated', 'meta'])})
         elif ft == 'td':
             keys = [[new_text(), rng.random() < 0.5, rng.choice(['int', 'str'])] for _ in range(rng.randint(1, 3))]
             fields.append({'feat': 'td', 'keys': keys, 'total_false': rng.random() < 0.4,
@@ -108,6 +118,22 @@ def gen_spec(rng, engine):
             for _ in range(rng.choice([1, 2])):
                 fields.append({'feat': 'skip_str', 'x': new_text(), 'how': rng.choice(['field', 'field', 'skip_defaults', 'ne']),
                                'val': rng.choice(['same', 'same', 'other'])})
+        elif ft == 'skip_user':
+            # skip conditions whose operand is an instance of a user-defined int / str subclass (IntEnum / StrEnum / IntFlag
+            # member, a subclass with or without a repr() of its own), on a field (skip_if_field / Annotated SkipIf) or for all
+            # fields through the Meta (skip_if / skip_defaults_if)
+            kind = rng.choice(sorted(OP_KINDS))
+            t = new_type(kind)
+            for _ in range(rng.choice([1, 1, 2])):
+                how = rng.choice(['field', 'field', 'annotated', 'meta', 'meta_defaults'])
+                if how in ('meta', 'meta_defaults') and ('meta_' + how) not in spec:
+                    spec['meta_' + how] = {'t': t, 'op': rng.choice(['EQ', 'EQ', 'NE'])}
+                    op = None
+                else:
+                    how = 'field' if how.startswith('meta') else how
+                    op = rng.choice(['EQ', 'EQ', 'EQ', 'NE', 'LT', 'LE', 'GT', 'GE'])
+                fields.append({'feat': 'skip_user', 't': t, 'how': how, 'op': op, 'val': rng.choice(['same', 'same', 'other']),
+                               'user_ty': kind in ('intenum', 'strenum') and rng.random() < 0.3, 'dflt': rng.choice(['same', 'same', 'other'])})
         else:
             fields.append({'feat': 'plain', 'ty': rng.choice(['int', 'str', 'float', 'bool'])})
     rng.shuffle(fields)
@@ -159,13 +185,41 @@ def render(spec, names, uid=''):
         pn = names['types'][i]
         if t['kind'] == 'enum':
             out.append(_wrap_def(f'_T{i}', pn, [f'class {pn}(_en.Enum):', "    A = 'a'", "    B = 'b'"], uid))
+        elif t['kind'] in OP_KINDS:
+            base, parent = OP_KINDS[t['kind']]
+            va, vb = OP_VALS[base]
+            if parent.startswith('_en.'):
+                body = [f'    A = {va!r}', f'    B = {vb!r}']
+            elif t['kind'].endswith('repr'):
+                body = ['    def __repr__(self):', f"        return {pn!r} + '(' + _b.{base}.__repr__(self) + ')'"]
+            else:
+                body = ['    pass']
+            out.append(_wrap_def(f'_T{i}', pn, [f'class {pn}({parent}):'] + body, uid))
         else:
             out.append(_wrap_def(f'_T{i}', pn, [f'class {pn}({BASES[t["kind"]]}):', '    pass'], uid))
+
+    def operand(t):
+        """the operand of a skip condition: an instance of user type t — or, under the plain spelling of the operands
+        (names['plain_operands']), the equal value of the builtin base type"""
+        base = OP_KINDS[spec['types'][t]['kind']][0]
+        va = OP_VALS[base][0]
+        if names.get('plain_operands'):
+            return repr(va)
+        return f'_T{t}.A' if OP_KINDS[spec['types'][t]['kind']][1].startswith('_en.') else f'_T{t}({va!r})'
 
     def meta_lines(tag=None, tag_key=None, unknown=None, root=False):
         ls = []
         if v1 and root:
             ls += ['v1 = True', "v1_key_case = 'AUTO'"]
+        if root:
+            tab = {X[k]: names['fields'][i] for i, f in enumerate(spec['fields'])
+                   if f['feat'] == 'multi_alias' and f.get('style') == 'meta' and not v1 for k in f['keys']}
+            if tab:
+                ls.append(f'json_key_to_field = {tab!r}')
+            for how, attr in (('meta', 'skip_if'), ('meta_defaults', 'skip_defaults_if')):
+                mc = spec.get('meta_' + how)
+                if mc:
+                    ls.append(f'{attr} = _dw.{mc["op"]}({operand(mc["t"])})')
         if tag is not None:
             ls.append(f'tag = {X[tag]!r}')
         if tag_key is not None:
@@ -205,12 +259,19 @@ def render(spec, names, uid=''):
             lines.append(f'    {fn}: {_wrap_ann(ann, f["wrap"])}')
         elif ft == 'multi_alias':
             keys = tuple(X[k] for k in f['keys'])
-            d = ', default=1' if f['dflt'] else ''
+            ty = OTHER_SRC[f.get('ty', 'int')]
+            dv = repr({'int': 1, 'str': 'd'}[f.get('ty', 'int')])
+            d = f', default={dv}' if f['dflt'] else ''
+            style = f.get('style', 'field')
             if v1:
-                rhs = f'_v1.Alias(load={keys!r}{d})' if len(keys) > 1 else f'_v1.Alias(load={keys[0]!r}{d})'
+                line = f'    {fn}: {ty} = ' + (f'_v1.Alias(load={keys!r}{d})' if len(keys) > 1 else f'_v1.Alias(load={keys[0]!r}{d})')
+            elif style == 'annotated':
+                line = f'    {fn}: _t.Annotated[{ty}, _dw.json_key({", ".join(repr(k) for k in keys)})]' + (f' = {dv}' if f['dflt'] else '')
+            elif style == 'meta':
+                line = f'    {fn}: {ty}' + (f' = {dv}' if f['dflt'] else '')          # keys: Meta.json_key_to_field
             else:
-                rhs = f'_dw.json_field({keys if len(keys) > 1 else keys[0]!r}{d})'
-            (later if f['dflt'] else lines).append(f'    {fn}: _b.int = {rhs}')
+                line = f'    {fn}: {ty} = _dw.json_field({keys if len(keys) > 1 else keys[0]!r}{d})'
+            (later if f['dflt'] else lines).append(line)
         elif ft == 'td':
             items = []
             for k, req, ty in f['keys']:
@@ -232,6 +293,18 @@ def render(spec, names, uid=''):
                 later.append(f'    {fn}: _b.str = _dw.skip_if_field(_dw.NE({x!r}), default={x!r})')
             else:
                 later.append(f'    {fn}: _b.str = {x!r}')
+        elif ft == 'skip_user':
+            base = OP_KINDS[spec['types'][f['t']]['kind']][0]
+            dv = OP_VALS[base][0 if f['dflt'] == 'same' else 1]
+            ty, dflt = f'_b.{base}', repr(dv)
+            if f['user_ty']:
+                ty, dflt = f'_T{f["t"]}', f'_T{f["t"]}({dv!r})'
+            if f['op'] is None:
+                later.append(f'    {fn}: {ty} = {dflt}')              # the condition is in the Meta
+            elif f['how'] == 'annotated':
+                later.append(f'    {fn}: _t.Annotated[{ty}, _dw.SkipIf(_dw.{f["op"]}({operand(f["t"])}))] = {dflt}')
+            else:
+                later.append(f'    {fn}: {ty} = _dw.skip_if_field(_dw.{f["op"]}({operand(f["t"])}), default={dflt})')
         else:
             lines.append(f'    {fn}: {OTHER_SRC[f["ty"]]}')
     if spec.get('catch_all'):
@@ -267,10 +340,11 @@ def document(spec, names):
         elif ft == 'pattern':
             doc[fn] = _wrap_val(SAMPLE[f['base']].strftime(f['pat']), f['wrap'])
         elif ft == 'multi_alias':
+            val = 50 + i if f.get('ty', 'int') == 'int' else 'val%d' % i        # a value per field
             if f['use'] < len(f['keys']):
-                doc[X[f['keys'][f['use']]]] = 5
+                doc[X[f['keys'][f['use']]]] = val
             elif not f['dflt']:
-                doc[X[f['keys'][0]]] = 6
+                doc[X[f['keys'][0]]] = val
         elif ft == 'td':
             doc[fn] = {X[k]: OTHER_VAL[ty] for (k, req, ty), p in zip(f['keys'], f['present']) if p or req}
         elif ft == 'tagged':
@@ -282,6 +356,8 @@ def document(spec, names):
             doc[fn] = _wrap_val(d, f['wrap'])
         elif ft == 'skip_str':
             doc[fn] = X[f['x']] if f['val'] == 'same' else spare
+        elif ft == 'skip_user':
+            doc[fn] = OP_VALS[OP_KINDS[spec['types'][f['t']]['kind']][0]][0 if f['val'] == 'same' else 1]
         else:
             doc[fn] = OTHER_VAL[f['ty']]
     if spec.get('extra_key'):
@@ -312,7 +388,9 @@ class Side:
             self.cls_idx[id(g[f'_M{j}'])] = j
         self.text_idx = {}
         for i, s in enumerate(names['text']):
-            self.text_idx.setdefault(s, i)
+            # (a load alias spelled like a field of the model is a key of documents only: in results that text is the field)
+            if s not in names['fields']:
+                self.text_idx.setdefault(s, i)
         self.field_idx = {}
         for i, n in enumerate(names['fields']):
             self.field_idx[norm(n)] = ['F', i]
@@ -348,8 +426,10 @@ class Side:
         if id(t) in self.type_idx:
             i = self.type_idx[id(t)]
             kind = self.spec['types'][i]['kind']
-            if kind == 'enum':
+            if kind == 'enum' or OP_KINDS.get(kind, ('', ''))[1].startswith('_en.'):
                 return ['user', i, v.name]
+            if kind in OP_KINDS:
+                return ['user', i, repr({'int': int, 'str': str}[OP_KINDS[kind][0]](v))]
             if kind in ('date', 'datetime', 'time'):
                 return ['user', i, v.isoformat()]
             base = {'str': str, 'int': int, 'float': float, 'decimal': decimal.Decimal}[kind]
